@@ -833,10 +833,17 @@ func (q *checker) unify(branches [][]*a.Expr) error {
 		return fmt.Errorf("check: too many if-else branches")
 	}
 
+	// Count, for each fact, the number of branches that hold it. A branch can
+	// hold the same fact more than once (facts.update does not de-duplicate),
+	// which must not count as more than one branch.
 	m := map[string]int{}
 	for _, b := range branches {
+		seen := map[string]bool{}
 		for _, f := range b {
-			m[f.Str(q.tm)]++
+			if s := f.Str(q.tm); !seen[s] {
+				seen[s] = true
+				m[s]++
+			}
 		}
 	}
 
